@@ -241,6 +241,7 @@ Fixpoint emits_of (ops : list aop) (b : bindings) : list json :=
   | ADelAll :: r => emits_of r []
   | APoke k :: r =>
       match lookup k b with Some v => emits_of r (bset k (poke v) b) | None => emits_of r b end
+  | ACountGlobal k :: r => emits_of r (bset k (JNum 4) b)
   end.
 
 Lemma run_ops_some ops : forall b em,
@@ -257,6 +258,7 @@ Proof.
     + apply IH.
     + apply IH.
     + destruct (lookup k b); apply IH.
+    + apply IH.
 Qed.
 
 Theorem js_success_emits_in_order p b :
